@@ -503,8 +503,20 @@ class Visitor(
 
     @bypass(resolve_source)
     def visit_join(self, source: 'dsl.Join') -> None:
-        if source.condition:
-            self.context.tables.filter(source.condition)
+        if source.condition is not None:
+            if source.kind is dsl.Join.Kind.INNER:
+                self.context.tables.filter(source.condition)
+            else:  # rows of a preserved side survive a failed condition - its factors must not filter them
+                self.context.tables.select(source.condition)
+                supplied = {
+                    dsl.Join.Kind.LEFT: [source.right],
+                    dsl.Join.Kind.RIGHT: [source.left],
+                }.get(source.kind, [])
+                tables = {f.origin for s in supplied for f in dsl.Column.dissect(*s.features)}
+                if isinstance(source.condition, dsl.Predicate):
+                    for table, factor in source.condition.factors.items():
+                        if table in tables:
+                            self.context.tables[table].factors.add(factor)
         super().visit_join(source)
         right = self.context.symbols.pop()
         left = self.context.symbols.pop()
